@@ -94,6 +94,11 @@ impl SplitPacket {
                 .map_err(|e| Decompress.context(e))?;
 
             let decompressed_size = decompressed.0 as usize;
+            if decompressed_size > MAX_DECOMPRESSED_SIZE {
+                return Err(Decompress.context(format!(
+                    "Decompressed size {decompressed_size} is larger than the maximum {MAX_DECOMPRESSED_SIZE}"
+                )));
+            }
 
             let mut decompressed_payload = vec![0; decompressed_size];
 
@@ -124,6 +129,9 @@ pub(crate) struct ValveProtocol {
 }
 
 static PACKET_SIZE: usize = 6144;
+
+/// Upper bound for the announced size of a compressed response.
+const MAX_DECOMPRESSED_SIZE: usize = 1024 * 1024;
 
 impl ValveProtocol {
     pub fn new(address: &SocketAddr, timeout_settings: Option<TimeoutSettings>) -> GDResult<Self> {
